@@ -2,6 +2,20 @@
 SOURCE_COMMITS = []
 NOT_APPLICABLE = {}
 CHECKS = {
+ "C18": {
+  "text": "PathQuery.tla (forward declarative semantics written from the manual: all root paths, step-wise evaluation, predicates, "
+          "aliases, query-mode error classes) is evaluated by TLC for every (graph, query) of a finite universe - 13 catalogue DAGs "
+          "<=5 packages and, thorough, all 416 connected 4-package DAGs x provideDeps flags; queries <=2/<=3 steps over all axes, * "
+          "globs, //, ., one predicate step, aliases - with consistency invariants. Every TLC state is replayed into the real "
+          "RecipeSet/PackageSet on generated recipes (queryTreePath/queryPackagePath x first/all x cold/warm caches x nullset/"
+          "nullglob/nullfail): package sets compared by variant identity, every reported stack checked to be a real path and an "
+          "admissible witness, empty-result behaviour per mode. Bounded exhaustive enumeration plus conformance on every "
+          "enumerated case - not a proof beyond the bounds.",
+  "design_ref": "DESIGN.md section 4, C18",
+  "note": "the manual is the reference, undetermined nullglob classes accepted either way; bob.input trusted for graph construction (generated project verified against the catalogue); predicates limited to one variable/eq/ne and * globs; queryAll completeness not part of P; two known findings mask same-class regressions",
+  "technique": "TLA+ declarative spec + TLC exhaustive enumeration of (graph, query) cases with consistency invariants and reach configs; every case replayed into the real PackageSet",
+ },
+
  "C17": {
   "text": "StringSubst.tla is the reference semantics of the substitution language and of !expr conditions written from the manual "
           "(AST, Render, Value with laziness/nounset/quoting contexts, Truth, ToFun); TLC exhaustively enumerates all substitution "
